@@ -2038,6 +2038,12 @@ func (r *stack) reveal() (err error) {
 	r.lock()
 	defer r.unlock()
 
+	// a read-only stack is left as it is, also
+	// when it is reached through a parent.
+	if r.positive(ronly) {
+		return
+	}
+
 	// scan each slice (except the config
 	// slice) and analyze its structure.
 	for i := 0; i < r.len() && err == nil; i++ {
